@@ -340,7 +340,7 @@ pub proof fn axiom_record_identity<E: Eviction>(a: Arc<Record<E>>, b: Arc<Record
     ensures a.id() == b.id() ==> a == b,
 { }
 
-// the real struct also has `_event_listener: Option<Arc<dyn EventListener>>` (unused) and wraps the indexer in
+// the real struct wraps the indexer in
 // `Sentry<I>` (flag maintenance only; see rule flag-as-membership)
 #[verifier::reject_recursive_types(E)]
 #[verifier::reject_recursive_types(S)]
@@ -360,8 +360,13 @@ where
     pub inflights: Arc<Mutex<InflightManager<E, S, I>>>,
 
     pub metrics: Arc<Metrics>,
+    /// `Option<Arc<dyn EventListener>>` in the real struct (not used by the shard methods on the pinned tree)
+    pub _event_listener: Option<ListenerMarkT>,
 }
 
+pub struct ListenerMarkT { }
+/// `drop(x)`: no effect on anything else (destructor side effects are not modelled)
+pub assume_specification<T>[ core::mem::drop::<T> ](_0: T);
 pub open spec fn garbage_is<E: Eviction>(g: (Event, Arc<Record<E>>), ev: Event, r: Arc<Record<E>>) -> bool {
     g.0 == ev && g.1 == r
 }
